@@ -575,6 +575,14 @@ def run(run):
             run.held('LINKSYM', inst_, vm.handlers['insert'].where(), '%d abstract executions' % cases_)
     except O_.AnalysisBroken as ex:
         run.broken('LINKSYM', inst_, str(ex), '')
+    try:
+        cases_, bad_ = c02.newslot_exec(run, fx)
+        if bad_:
+            run.violated('NEWSLOTCLEAN', 'newSlot: the free list is exactly the rest of the new block (interpreted)', fx.one('graphite2::Segment::newSlot').where(), bad_)
+        else:
+            run.held('NEWSLOTCLEAN', 'newSlot: the free list is exactly the rest of the new block (interpreted)', fx.one('graphite2::Segment::newSlot').where(), '%d abstract executions' % cases_)
+    except O_.AnalysisBroken as ex:
+        run.broken('NEWSLOTCLEAN', 'newSlot: the free list is exactly the rest of the new block (interpreted)', str(ex), '')
     rs_ = fx.one('graphite2::Segment::reverseSlots')
     inst_ = 'reverseSlots leaves a well-formed chain of the same slots (interpreted)'
     try:
